@@ -177,6 +177,27 @@ class FakeRandom:
         assert (a, b) == (0, 1)
         return SymU()
 
+    def randrange(self, start, stop=None, step=1):
+        if not EX.active:
+            return _real_random.randrange(start, stop, step) if stop is not None else _real_random.randrange(start)
+        r = range(start) if stop is None else range(start, stop, step)
+        if len(r) == 0:
+            raise ValueError("empty range for randrange()")
+        if len(r) > EX.max_outcomes:
+            raise TooManyPaths("random.randrange")
+        return EX.choose("random.randrange", [(v, F(1, len(r))) for v in r])
+
+    def randint(self, a, b):
+        return self.randrange(a, b + 1)
+
+    def choice(self, seq):
+        if not EX.active:
+            return _real_random.choice(seq)
+        seq = list(seq)
+        if not seq:
+            raise IndexError("Cannot choose from an empty sequence")
+        return seq[EX.choose("random.choice", [(i, F(1, len(seq))) for i in range(len(seq))])]
+
     def random(self):
         if not EX.active:
             return _real_random.random()
